@@ -326,3 +326,105 @@ Proof.
   unfold pget. rewrite Hi. cbn [pdrain]. rewrite Hc, Nat.ltb_irrefl. cbn.
   split; [reflexivity|]. eapply nth_error_upd_nth_eq; eauto.
 Qed.
+
+(* identity-level bookkeeping: every resource id is in exactly one place *)
+Definition cnt (l : list nat) (y : nat) : nat := count_occ Nat.eq_dec l y.
+Definition hcnt (y : nat) (th : pthread) : nat := cnt (pheld th) y.
+Definition one (x y : nat) : nat := if Nat.eqb x y then 1 else 0.
+
+Lemma cnt_cons x l y : cnt (x :: l) y = one x y + cnt l y.
+Proof. unfold cnt, one. cbn. destruct (Nat.eq_dec x y) as [->|H]; [rewrite Nat.eqb_refl; reflexivity|].
+  destruct (Nat.eqb_spec x y); [contradiction|reflexivity]. Qed.
+
+Lemma cnt_app l1 l2 y : cnt (l1 ++ l2) y = cnt l1 y + cnt l2 y.
+Proof. unfold cnt. apply count_occ_app. Qed.
+
+Lemma hcnt_mk y a b c h r : hcnt y (mkPT a b c h r) = cnt h y.
+Proof. reflexivity. Qed.
+
+Definition pid (s : pstate) (y : nat) : Prop :=
+  cnt (map fst (pidle s)) y + sumf (hcnt y) (pthreads s) + cnt (pdestroyed s) y = if Nat.ltb y (pnext s) then 1 else 0.
+
+Lemma pdrain_cnt ma now idle y : forall cr de got idle' cr' de',
+  pdrain ma now idle cr de = (got, idle', cr', de') ->
+  cnt (map fst idle) y + cnt de y =
+  cnt (map fst idle') y + cnt de' y + match got with Some x => one x y | None => 0 end.
+Proof.
+  induction idle as [|[x last] rest IH]; intros cr de got idle' cr' de' H; cbn in H.
+  - inversion H; subst. cbn. lia.
+  - destruct (expired ma now last).
+    + specialize (IH _ _ _ _ _ _ H). rewrite cnt_app in IH. cbn [map fst]. rewrite cnt_cons.
+      change (cnt [x] y) with (cnt (x :: []) y) in IH. rewrite cnt_cons in IH. cbn in IH. lia.
+    + inversion H; subst. cbn [map fst]. rewrite cnt_cons. lia.
+Qed.
+
+Lemma pget_pid s t th sig :
+  (forall y, pid s y) -> nth_error (pthreads s) t = Some th -> forall y, pid (pget s t th sig) y.
+Proof.
+  intros HI Ht y. unfold pget.
+  destruct (pdrain (pmaxage s) (pclock s) (pidle s) (pcreated s) (pdestroyed s)) as [[[got idle'] cr'] de'] eqn:E.
+  pose proof (pdrain_cnt _ _ _ y _ _ _ _ _ _ E) as D.
+  pose proof (sumf_upd_nth (hcnt y) (pthreads s) t) as U.
+  specialize (HI y). unfold pid in *.
+  destruct got as [x|].
+  - match goal with |- context [upd_nth (pthreads s) t ?t'] => specialize (U t' th Ht) end.
+    change (hcnt y th) with (cnt (pheld th) y) in U. rewrite hcnt_mk in U. rewrite cnt_cons in U.
+    cbn [pidle pthreads pdestroyed pnext]. lia.
+  - destruct (Nat.ltb cr' (plimit s)).
+    + match goal with |- context [upd_nth (pthreads s) t ?t'] => specialize (U t' th Ht) end.
+      change (hcnt y th) with (cnt (pheld th) y) in U. rewrite hcnt_mk in U. rewrite cnt_cons in U.
+      cbn [pidle pthreads pdestroyed pnext]. unfold one in *.
+      destruct (Nat.eqb_spec (pnext s) y) as [<-|Hne].
+      * rewrite Nat.ltb_irrefl in HI. destruct (Nat.ltb_spec (pnext s) (S (pnext s))); lia.
+      * destruct (Nat.ltb_spec y (pnext s)); destruct (Nat.ltb_spec y (S (pnext s))); lia.
+    + match goal with |- context [upd_nth (pthreads s) t ?t'] => specialize (U t' th Ht) end.
+      change (hcnt y th) with (cnt (pheld th) y) in U. rewrite hcnt_mk in U.
+      cbn [pidle pthreads pdestroyed pnext]. lia.
+Qed.
+
+Lemma pstep_pid s t s' : (forall y, pid s y) -> pstep s t = Some s' -> forall y, pid s' y.
+Proof.
+  intros HI H y. unfold pstep in H.
+  destruct (nth_error (pthreads s) t) as [th|] eqn:Ht; [|discriminate].
+  destruct (pcur th) as [o|]; [|discriminate].
+  destruct (ppcof th) eqn:Epc.
+  - destruct o.
+    + inversion H; subst s'. apply pget_pid; auto.
+    + pose proof (sumf_upd_nth (hcnt y) (pthreads s) t) as U. specialize (HI y). unfold pid in *.
+      destruct (pheld th) as [|x rest] eqn:Eh; inversion H; subst s'; clear H;
+        match goal with |- context [upd_nth (pthreads s) t ?t'] => specialize (U t' th Ht) end;
+        change (hcnt y th) with (cnt (pheld th) y) in U; rewrite hcnt_mk in U; rewrite Eh in U;
+        cbn [pidle pthreads pdestroyed pnext map fst]; rewrite ?cnt_cons in *; lia.
+    + pose proof (sumf_upd_nth (hcnt y) (pthreads s) t) as U. specialize (HI y). unfold pid in *.
+      inversion H; subst s'; clear H.
+      match goal with |- context [upd_nth (pthreads s) t ?t'] => specialize (U t' th Ht) end.
+      change (hcnt y th) with (cnt (pheld th) y) in U. rewrite hcnt_mk in U.
+      cbn [pidle pthreads pdestroyed pnext]. lia.
+  - destruct (Nat.ltb 0 (psig s)); [|discriminate]. inversion H; subst s'. apply pget_pid; auto.
+Qed.
+
+Lemma pinit_pid n ma scripts y : pid (pinit n ma scripts) y.
+Proof.
+  unfold pid. cbn. rewrite sumf_map. rewrite sumf_zero; [reflexivity|]. intros; reflexivity.
+Qed.
+
+Lemma pexec_pid n ma scripts sched y : pid (pexec n ma scripts sched) y.
+Proof.
+  revert y. unfold pexec. apply (run_inv pstep (fun s => forall y, pid s y)).
+  - intros; eapply pstep_pid; eauto.
+  - intros; apply pinit_pid.
+Qed.
+
+Lemma pool_exclusive_l : forall n ma scripts sched x,
+  let s := pexec n ma scripts sched in
+  pholders x s + pidle_count x s <= 1 /\
+  (In x (pdestroyed s) -> pholders x s = 0 /\ pidle_count x s = 0) /\
+  (pnext s <= x -> pholders x s = 0 /\ pidle_count x s = 0).
+Proof.
+  intros n ma scripts sched x s. pose proof (pexec_pid n ma scripts sched x) as H. fold s in H.
+  unfold pid in H. unfold pholders, pidle_count. unfold hcnt, cnt in H.
+  split; [|split].
+  - destruct (Nat.ltb x (pnext s)); lia.
+  - intros Hin. apply (count_occ_In Nat.eq_dec) in Hin. destruct (Nat.ltb x (pnext s)); lia.
+  - intros Hle. destruct (Nat.ltb_spec x (pnext s)); lia.
+Qed.
